@@ -62,6 +62,18 @@ def gen(rng, depth):
         ne = [("{", "open")] + body + [("}", "close")]
         tail = rng.choice([[("~~", "op")], [(" ", "ws"), ("<~", "op"), (" ", "ws"), (rng.choice(ATOMS), "atom")], []])
         return [ne] + tail
+    if k < 0.975:
+        # a bounded re-apply loop; the arm holding `^~` is marked as a complete operand, so that the
+        # parentheses rewrite wraps it (which expression a re-apply restarts must not depend on brackets)
+        n = rng.choice(["2", "3", "10"])
+        arm = [("", "omark"), ("^~", "op"), (" ", "ws"), ("$", "atom"), (" ", "ws"), ("-", "op"), (" ", "ws"), ("1", "atom")]
+        other = [("(", "open"), gen(rng, depth - 2), (")", "close")] if rng.random() < 0.5 else [("", "omark"), ("$", "atom")]
+        body = [("$", "atom"), (" ", "ws"), (">", "op"), (" ", "ws"), ("0", "atom"), (" ", "ws"), ("?>", "op"), (" ", "ws"), arm,
+                (" ", "ws"), ("|>", "op"), (" ", "ws"), other]
+        if rng.random() < 0.4:
+            body = [("$", "atom"), (" ", "ws"), ("<", "op"), (" ", "ws"), ("0", "atom"), (" ", "ws"), ("||", "op"), (" ", "ws"),
+                    [("", "omark"), ("(", "open"), body, (")", "close")]]
+        return [(n, "atom"), (" ", "ws"), ("~>", "op"), (" ", "ws"), [("{", "open")] + body + [("}", "close")]]
     return [gen(rng, depth - 1), (" ", "ws"), ("[", "open"), gen(rng, depth - 2), ("\n\n", "sep"), gen(rng, depth - 2), ("]", "close")]
 
 
@@ -90,6 +102,8 @@ def is_operand(part):
     if not isinstance(part, list):
         return part[1] == "atom"
     first = part[0]
+    if (not isinstance(first, list)) and first[1] == "omark":
+        return True
     return (not isinstance(first, list)) and first[1] == "open" and first[0] in ("(", "{") and len(part) >= 2 and \
         (not isinstance(part[-1], list)) and part[-1][1] == "close"
 
